@@ -1,20 +1,29 @@
-"""C20 translator: regenerates lean/Bermuda/Generated/PlotMetrics.lean from /repo's CURRENT
-bermuda/plot.py on every run.
+"""C20 translator: regenerates lean/Bermuda/Generated/PlotMetrics.lean from the LIVE
+`bermuda.plot.COMMON_METRIC_DICT` on every run.
 
-COMMON_METRIC_DICT is a dict literal of lambdas. Each lambda is translated (by `ast`) into a term of
-the small expression language `Bermuda.Plot.MExpr` of Model/Plot.lean:
+The meaning of a metric is obtained DYNAMICALLY, by symbolic execution — not from the shape of the
+source (lambda, def, helper call, functools.partial … all look the same to the probe):
 
-    lambda cell: 100 * cell["paid_loss"] / cell["earned_premium"]
-      ->  ⟨"Paid Loss Ratio", 1, .div (.mul (.num 100) (.field .cell "paid_loss")) (.field .cell "earned_premium")⟩
-
-Parameters are identified by POSITION (0 = the cell, 1 = its predecessor in the row, 2 = its
-successor), exactly as `_safe_apply_metric` passes them. Anything the translator does not understand
-becomes `.opaque` and `ok := false`, so the table theorems of Properties/C20 stop building.
-The order of the entries is the insertion order of the live dict (checked against the AST order).
+  * every function of the dict is called the way `_safe_apply_metric` calls it — `(cell, prev, next)`
+    if that binds, else `(cell)` — with RECORDING PROXY CELLS. `proxy[key]`, `proxy.values[key]`,
+    `proxy.values.get(key)` return a symbolic number `Sym` that remembers which argument (cell /
+    previous / next) and which field was read; `Sym` supports `+ - * /` with numbers and other `Sym`s
+    (both sides) and records the operation. The result is the expression tree
+        ⟨"Paid Loss Ratio", 1, .div (.mul (.num 100) (.field .cell "paid_loss")) (.field .cell "earned_premium")⟩
+    in the language `Bermuda.Plot.MExpr` of Model/Plot.lean;
+  * one probe per combination of present / absent (`None`) neighbours: the probe must raise exactly
+    when the tree reads an absent neighbour and must otherwise return the SAME tree — a function that
+    treats a missing neighbour specially is not expressible and is reported;
+  * anything the symbolic values do not support (comparison, truth value, `in`, numpy functions,
+    `**`, a default in `.get`, a result that is not symbolic) makes the entry `.opaque` and
+    `ok := false`, so the table theorems of Properties/C20 stop building.
+The order of the entries is the insertion order of the live dict. The AST of a dict literal of lambdas
+(the historical route) is kept only as a cross-check reported in the run's notes.
 """
 from __future__ import annotations
 
 import ast
+import inspect
 import os
 from fractions import Fraction
 
@@ -24,77 +33,215 @@ from translate import GEN_DIR, lstr, src
 WHO = {0: ".cell", 1: ".prev", 2: ".next"}
 
 
-class Untranslatable(Exception):
-    pass
+class Unsupported(Exception):
+    """the metric does something the expression language cannot say"""
 
 
-def expr(node, params):
-    if isinstance(node, ast.Constant) and isinstance(node.value, (int, float)) and not isinstance(node.value, bool):
-        fr = Fraction(node.value)
-        return f"(.num (({fr.numerator} : Rat) / {fr.denominator}))"
-    if isinstance(node, ast.Subscript) and isinstance(node.value, ast.Name) and node.value.id in params:
-        key = node.slice
-        if isinstance(key, ast.Constant) and isinstance(key.value, str):
-            return f"(.field {WHO[params[node.value.id]]} {lstr(key.value)})"
-    if isinstance(node, ast.BinOp):
-        op = {ast.Add: "add", ast.Sub: "sub", ast.Mult: "mul", ast.Div: "div"}.get(type(node.op))
-        if op:
-            return f"(.{op} {expr(node.left, params)} {expr(node.right, params)})"
-    raise Untranslatable(ast.dump(node)[:120])
+def _num(x):
+    if isinstance(x, bool) or not isinstance(x, (int, float)):
+        raise Unsupported(f"operand of type {type(x).__name__}")
+    fr = Fraction(x)
+    return f"(.num (({fr.numerator} : Rat) / {fr.denominator}))"
+
+
+class Sym:
+    """a symbolic number: an MExpr term (as Lean text) + the set of arguments it reads"""
+    __array_ufunc__ = None      # numpy must not treat it as a scalar / broadcast over it
+    __hash__ = None
+
+    def __init__(self, term, reads):
+        self.term, self.reads = term, frozenset(reads)
+
+    @staticmethod
+    def lift(x):
+        return x if isinstance(x, Sym) else Sym(_num(x), ())
+
+    def _bin(self, op, other, swap=False):
+        o = Sym.lift(other)
+        a, b = (o, self) if swap else (self, o)
+        return Sym(f"(.{op} {a.term} {b.term})", a.reads | b.reads)
+
+    def __add__(self, o): return self._bin("add", o)
+    def __radd__(self, o): return self._bin("add", o, True)
+    def __sub__(self, o): return self._bin("sub", o)
+    def __rsub__(self, o): return self._bin("sub", o, True)
+    def __mul__(self, o): return self._bin("mul", o)
+    def __rmul__(self, o): return self._bin("mul", o, True)
+    def __truediv__(self, o): return self._bin("div", o)
+    def __rtruediv__(self, o): return self._bin("div", o, True)
+    def __neg__(self): return Sym.lift(0)._bin("sub", self)
+    def __pos__(self): return self
+
+    def _no(self, *a, **k):
+        raise Unsupported("comparison / truth value / unsupported operation on a cell value")
+
+    __bool__ = __lt__ = __le__ = __gt__ = __ge__ = __eq__ = __ne__ = _no
+    __pow__ = __rpow__ = __floordiv__ = __rfloordiv__ = __mod__ = __rmod__ = __abs__ = _no
+    __float__ = __int__ = __len__ = __iter__ = __getitem__ = __round__ = __index__ = _no
+
+
+class ProxyValues:
+    def __init__(self, who):
+        self.who = who
+
+    def __getitem__(self, key):
+        if not isinstance(key, str):
+            raise Unsupported("non-string field key")
+        return Sym(f"(.field {WHO[self.who]} {lstr(key)})", (self.who,))
+
+    def get(self, key, *default):
+        if default and default[0] is not None:
+            raise Unsupported(".get with a default")
+        return self[key]
+
+    def _no(self, *a, **k):
+        raise Unsupported("membership / iteration over the values of a cell")
+
+    __contains__ = __iter__ = __len__ = keys = items = values = _no
+
+
+class ProxyCell:
+    """stands for the cell (0), its predecessor (1) or its successor (2) in the row"""
+
+    def __init__(self, who):
+        self._who = who
+        self.values = ProxyValues(who)
+
+    def __getitem__(self, key):
+        return self.values[key]
+
+    def __contains__(self, key):
+        raise Unsupported("`key in cell`")
+
+    def __getattr__(self, name):
+        raise Unsupported(f"cell attribute {name}")
+
+
+def binds(fn, n):
+    try:
+        inspect.signature(fn).bind(*([None] * n))
+        return True
+    except TypeError:
+        return False
+    except ValueError:
+        return False
+
+
+def probe(fn):
+    """(arity, MExpr text, ok). arity as `_safe_apply_metric` experiences it: 3 when the call with
+    (cell, prev, next) binds, else 1 when the call with (cell) binds, else 0."""
+    arity = 3 if binds(fn, 3) else (1 if binds(fn, 1) else 0)
+    if arity == 0:
+        return 0, ".opaque", False
+
+    def run(prev_present, next_present):
+        args = [ProxyCell(0)]
+        if arity == 3:
+            args += [ProxyCell(1) if prev_present else None, ProxyCell(2) if next_present else None]
+        try:
+            r = fn(*args)
+        except Unsupported:
+            raise
+        except Exception:  # noqa: BLE001  -- what _safe_apply_metric turns into "no value"
+            return None
+        if isinstance(r, Sym):
+            return r
+        if isinstance(r, (int, float)) and not isinstance(r, bool):
+            return Sym.lift(r)
+        raise Unsupported(f"result of type {type(r).__name__}")
+
+    try:
+        full = run(True, True)
+        if full is None:
+            return arity, ".opaque", False
+        if arity == 3:
+            for pp in (True, False):
+                for nn in (True, False):
+                    if pp and nn:
+                        continue
+                    got = run(pp, nn)
+                    must_raise = (not pp and 1 in full.reads) or (not nn and 2 in full.reads)
+                    if must_raise != (got is None) or (got is not None and got.term != full.term):
+                        return arity, ".opaque", False     # a missing neighbour is treated specially
+        elif full.reads - {0}:
+            return arity, ".opaque", False
+        return arity, full.term, True
+    except Unsupported:
+        return arity, ".opaque", False
 
 
 def metric_table():
     import importlib
 
     P = importlib.import_module("bermuda.plot")
-    tree = ast.parse(src("bermuda/plot.py"))
-    lit = None
-    for node in tree.body:
-        tgt = None
-        if isinstance(node, ast.AnnAssign) and isinstance(node.target, ast.Name):
-            tgt, val = node.target.id, node.value
-        elif isinstance(node, ast.Assign) and len(node.targets) == 1 and isinstance(node.targets[0], ast.Name):
-            tgt, val = node.targets[0].id, node.value
-        if tgt == "COMMON_METRIC_DICT":
-            lit = val
-    if not isinstance(lit, ast.Dict):
-        raise Untranslatable("COMMON_METRIC_DICT is not a dict literal")
     rows, ok = [], True
-    for k, v in zip(lit.keys, lit.values):
-        if not (isinstance(k, ast.Constant) and isinstance(k.value, str)):
-            raise Untranslatable("non-literal metric name")
-        name = k.value
-        arity, body = 0, ".opaque"
-        if isinstance(v, ast.Lambda):
-            a = v.args
-            plain = not (a.posonlyargs or a.kwonlyargs or a.vararg or a.kwarg or a.defaults)
-            if plain and 1 <= len(a.args) <= 3:
-                arity = len(a.args)
-                params = {p.arg: i for i, p in enumerate(a.args)}
-                try:
-                    body = expr(v.body, params)
-                except Untranslatable:
-                    ok = False
-            else:
-                ok = False
-        else:
+    for name, fn in P.COMMON_METRIC_DICT.items():
+        if not isinstance(name, str) or not callable(fn):
+            rows.append((str(name), 0, ".opaque"))
             ok = False
+            continue
+        arity, body, good = probe(fn)
+        ok = ok and good
         rows.append((name, arity, body))
-    if [r[0] for r in rows] != list(P.COMMON_METRIC_DICT):
-        ok = False   # the literal is not what the module ends up with
     return rows, ok
+
+
+# ---- the historical AST route, kept as a cross-check only --------------------------------------
+
+def _ast_expr(node, params):
+    if isinstance(node, ast.Constant) and isinstance(node.value, (int, float)) and not isinstance(node.value, bool):
+        return _num(node.value)
+    if isinstance(node, ast.Subscript) and isinstance(node.value, ast.Name) and node.value.id in params:
+        if isinstance(node.slice, ast.Constant) and isinstance(node.slice.value, str):
+            return f"(.field {WHO[params[node.value.id]]} {lstr(node.slice.value)})"
+    if isinstance(node, ast.BinOp):
+        op = {ast.Add: "add", ast.Sub: "sub", ast.Mult: "mul", ast.Div: "div"}.get(type(node.op))
+        if op:
+            return f"(.{op} {_ast_expr(node.left, params)} {_ast_expr(node.right, params)})"
+    raise Unsupported("ast")
+
+
+def ast_table():
+    """rows from a dict literal of lambdas, or None when the source does not have that shape"""
+    try:
+        tree = ast.parse(src("bermuda/plot.py"))
+        lit = None
+        for node in tree.body:
+            tgt, val = None, None
+            if isinstance(node, ast.AnnAssign) and isinstance(node.target, ast.Name):
+                tgt, val = node.target.id, node.value
+            elif isinstance(node, ast.Assign) and len(node.targets) == 1 and isinstance(node.targets[0], ast.Name):
+                tgt, val = node.targets[0].id, node.value
+            if tgt == "COMMON_METRIC_DICT":
+                lit = val
+        if not isinstance(lit, ast.Dict):
+            return None
+        rows = []
+        for k, v in zip(lit.keys, lit.values):
+            if not (isinstance(k, ast.Constant) and isinstance(v, ast.Lambda)):
+                return None
+            params = {p.arg: i for i, p in enumerate(v.args.args)}
+            rows.append((k.value, len(v.args.args), _ast_expr(v.body, params)))
+        return rows
+    except Exception:  # noqa: BLE001
+        return None
 
 
 def regenerate():
     os.makedirs(GEN_DIR, exist_ok=True)
+    note = {}
     try:
         rows, ok = metric_table()
         body = ",\n  ".join(f"⟨{lstr(n)}, {a}, {b}⟩" for n, a, b in rows)
         text_body = f"""
-/-- COMMON_METRIC_DICT in insertion order: (name, number of lambda parameters, body) -/
+/-- COMMON_METRIC_DICT in insertion order: (name, arity as `_safe_apply_metric` sees it, body obtained by
+symbolic execution of the live function) -/
 def metrics : List Metric := [
   {body}]
 """
+        at = ast_table()
+        note["ast_cross_check"] = "source is not a dict literal of lambdas" if at is None else (
+            "agrees" if at == rows else "DIFFERS from the probed table")
     except Exception as e:  # noqa: BLE001
         ok = False
         text_body = f"\n-- extraction failed: {type(e).__name__}: {str(e)[:200]}\ndef metrics : List Metric := []\n"
@@ -107,7 +254,8 @@ def metrics : List Metric := [
     if old != text:
         with open(path, "w") as f:
             f.write(text)
-    return {"PlotMetrics": {"ok": ok, "changed": old != text}}
+    note.update({"ok": ok, "changed": old != text})
+    return {"PlotMetrics": note}
 
 
 if __name__ == "__main__":
